@@ -1,6 +1,6 @@
 // Minimal reproducer (no harness, plain liblzma API): re-initialising the threaded encoder with an unchanged
 // thread count right after a Block was handed to a worker loses that worker; the next Stream never completes.
-//   cc F7-reinit-lost-worker.c -I/repo/src/liblzma/api <build>/liblzma.a -lpthread && ./a.out
+//   cc C08-F7-reinit-lost-worker.c -I/repo/src/liblzma/api <build>/liblzma.a -lpthread && ./a.out
 // Expected: prints "finished". Observed on the unchanged tree: hangs in lzma_code (alarm -> "HANG").
 #include <lzma.h>
 #include <stdio.h>
